@@ -4,3 +4,4 @@ import AdcProofs.CanonSound
 import AdcProofs.StepsSound
 import AdcProofs.NormSound
 import AdcProofs.Props.Validator
+import AdcProofs.Tables
